@@ -32,7 +32,7 @@ ASSUMPTIONS = [
 
 
 def budget(tier):
-    return 1600 if tier == "quick" else 60000
+    return 1600 if tier == "quick" else 20000
 
 
 def machines(tier):
